@@ -220,6 +220,7 @@ fn f64_class(v: f64) -> &'static str {
 
 fn check_f64(v: f64, acc: &mut Acc) {
     let t = v.to_plain();
+    let t = if (&v).to_plain() == t && (&&v).to_plain() == t { t } else { format!("<by-reference spelling {:?} differs from {:?}>", (&v).to_plain(), t) };
     let back = f64::from_plain(&t);
     let rt = match back {
         Ok(b) => (b.is_nan() && v.is_nan()) || b.to_bits() == v.to_bits(),
@@ -230,6 +231,7 @@ fn check_f64(v: f64, acc: &mut Acc) {
 
 fn check_i32(v: i32, acc: &mut Acc) {
     let t = v.to_plain();
+    let t = if (&v).to_plain() == t && (&&v).to_plain() == t { t } else { format!("<by-reference spelling {:?} differs from {:?}>", (&v).to_plain(), t) };
     let rt = i32::from_plain(&t).ok() == Some(v);
     let class = if v < 0 { "negative" } else { "non-negative" };
     acc.record("integer", v.to_string(), &t, rt, t == model_decimal(v as i128), class);
@@ -253,6 +255,7 @@ fn check_safelong(v: i64, acc: &mut Acc) {
         }
     };
     let t = s.to_plain();
+    let t = if (&s).to_plain() == t && (&&s).to_plain() == t { t } else { format!("<by-reference spelling {:?} differs from {:?}>", (&s).to_plain(), t) };
     let rt = SafeLong::from_plain(&t).ok() == Some(s);
     acc.record("safelong", v.to_string(), &t, rt, t == model_decimal(v as i128), class);
 }
@@ -260,6 +263,7 @@ fn check_safelong(v: i64, acc: &mut Acc) {
 fn check_bytes(v: &[u8], acc: &mut Acc) {
     let b = Bytes::copy_from_slice(v);
     let t = b.to_plain();
+    let t = if (&b).to_plain() == t && (&&b).to_plain() == t { t } else { format!("<by-reference spelling {:?} differs from {:?}>", (&b).to_plain(), t) };
     let rt = Bytes::from_plain(&t).ok().as_ref() == Some(&b);
     let t2 = v.to_plain(); // the [u8] impl
     acc.record("binary", format!("{:?}", v), &t, rt && t2 == t, t == model_base64(v), &format!("len%3={}", v.len() % 3));
@@ -270,6 +274,7 @@ fn check_bytes_long(len: usize, pat: u8, acc: &mut Acc) {
     let v = &bytes[..];
     let b = Bytes::copy_from_slice(v);
     let t = b.to_plain();
+    let t = if (&b).to_plain() == t && (&&b).to_plain() == t { t } else { format!("<by-reference spelling {:?} differs from {:?}>", (&b).to_plain(), t) };
     let rt = Bytes::from_plain(&t).ok().as_ref() == Some(&b);
     let t2 = v.to_plain();
     acc.record("binary", format!("long:{}:{}", len, pat), &t[..t.len().min(24)], rt && t2 == t, t == model_base64(v), &format!("long,len%3={}", v.len() % 3));
@@ -278,6 +283,7 @@ fn check_bytes_long(len: usize, pat: u8, acc: &mut Acc) {
 fn check_uuid(v: u128, acc: &mut Acc) {
     let u = Uuid::from_u128(v);
     let t = u.to_plain();
+    let t = if (&u).to_plain() == t && (&&u).to_plain() == t { t } else { format!("<by-reference spelling {:?} differs from {:?}>", (&u).to_plain(), t) };
     let rt = Uuid::from_plain(&t).ok() == Some(u);
     acc.record("uuid", format!("{:#034x}", v), &t, rt, t == model_uuid(v), "any");
 }
@@ -295,6 +301,7 @@ fn check_datetime(y: i32, mo: u32, d: u32, h: u32, mi: u32, sec: u32, nanos: u32
     };
     let dt: DateTime<Utc> = naive.and_utc();
     let t = dt.to_plain();
+    let t = if (&dt).to_plain() == t && (&&dt).to_plain() == t { t } else { format!("<by-reference spelling {:?} differs from {:?}>", (&dt).to_plain(), t) };
     let rt = DateTime::<Utc>::from_plain(&t).ok() == Some(dt);
     let class = if sec == 60 { "leap-second" } else if nanos == 0 { "whole-second" } else { "fractional" };
     acc.record(
@@ -309,6 +316,7 @@ fn check_datetime(y: i32, mo: u32, d: u32, h: u32, mi: u32, sec: u32, nanos: u32
 
 fn check_string(s: &str, acc: &mut Acc) {
     let t = s.to_plain();
+    let t = if (&s).to_plain() == t && (&&s).to_plain() == t { t } else { format!("<by-reference spelling {:?} differs from {:?}>", (&s).to_plain(), t) };
     let t2 = s.to_string().to_plain();
     let rt = String::from_plain(&t).ok().as_deref() == Some(s) && t2 == t;
     acc.record("string", format!("{:?}", s), &t, rt, t == s, "any");
@@ -374,6 +382,7 @@ pub fn run(args: &Args) -> Report {
     // bool
     for b in [true, false] {
         let t = b.to_plain();
+        let t = if (&b).to_plain() == t && (&&b).to_plain() == t { t } else { format!("<by-reference spelling {:?} differs from {:?}>", (&b).to_plain(), t) };
         let rt = bool::from_plain(&t).ok() == Some(b);
         acc.record("boolean", b.to_string(), &t, rt, t == if b { "true" } else { "false" }, "any");
     }
@@ -449,6 +458,7 @@ pub fn run(args: &Args) -> Report {
             .filter(|bits| {
                 let v = f32::from_bits(*bits) as f64;
                 let t = v.to_plain();
+                let t = if (&v).to_plain() == t && (&&v).to_plain() == t { t } else { format!("<by-reference spelling {:?} differs from {:?}>", (&v).to_plain(), t) };
                 let rt = match f64::from_plain(&t) {
                     Ok(b) => (b.is_nan() && v.is_nan()) || b.to_bits() == v.to_bits(),
                     Err(_) => false,
